@@ -100,6 +100,37 @@ func checkC16(s *C16Spec) Result {
 	}
 	res.Classes = append(res.Classes, fmt.Sprintf("writer:%d", s.Writer))
 
+	// the package's own builders as the destination of the F variant: they
+	// are io.Writers like any other (one Write of the finished text), and what
+	// arrives through a builder's io.Writer side is unsafe
+	{
+		var sb, want redact.StringBuilder
+		var mb redact.ManualBuffer
+		want.UnsafeString(string(ref))
+		var n1, n2 int
+		var e1, e2 error
+		if p, pv := guard(func() {
+			if printf {
+				n1, e1 = redact.Fprintf(&sb, format, args...)
+				n2, e2 = redact.Fprintf(&mb, format, args...)
+			} else {
+				n1, e1 = redact.Fprint(&sb, args...)
+				n2, e2 = redact.Fprint(&mb, args...)
+			}
+		}); p {
+			return fail("F variant onto a StringBuilder / ManualBuffer panicked (%v), the S variant did not", pv)
+		}
+		if n1 != len(ref) || e1 != nil || n2 != len(ref) || e2 != nil {
+			return fail("F variant onto a StringBuilder returned (%d, %v), onto a ManualBuffer (%d, %v), want (%d, nil)", n1, e1, n2, e2, len(ref))
+		}
+		if got := sb.RedactableString(); got != want.RedactableString() {
+			return fail("F variant onto a StringBuilder leaves %s in it; the text %s written to its io.Writer side is %s", qs(string(got)), q(ref), qs(string(want.RedactableString())))
+		}
+		if got := mb.RedactableString(); got != want.RedactableString() {
+			return fail("F variant onto a ManualBuffer (initial mode: unsafe) leaves %s in it, want %s", qs(string(got)), qs(string(want.RedactableString())))
+		}
+	}
+
 	// HelperForErrorf without %w: same text
 	if printf && !bytes.Contains([]byte(format), []byte("w")) {
 		var ht redact.RedactableString
